@@ -1,5 +1,5 @@
 (* OptimalFacts.v -- lemmas about Model/Optimal.v *)
-From Coq Require Import ZArith NArith List Bool Lia ZifyBool.
+From Coq Require Import ZArith NArith List Bool Lia ZifyBool Permutation.
 From Ctg Require Import Base Net Optimal.
 Import ListNotations.
 Open Scope nat_scope.
@@ -853,4 +853,180 @@ Proof.
     + specialize (Hcap (S, e)). rewrite E in Hcap. specialize (Hcap (or_introl eq_refl)). cbn [snd] in Hcap. lia.
 Qed.
 
+
+(* ---- termination: the cap reaches the score of any admissible tree on all leaves ---- *)
+Lemma LI_pass cap tabs : 1 <= n -> LI tabs -> nth n tabs [] = [] ->
+  LI (full_pass app szs o so n cap tabs) /\ covers cap (full_pass app szs o so n cap tabs) n.
+Proof.
+  intros Hn [HI _] E.
+  assert (Hc : capped cap tabs) by (intros x Hx; rewrite E in Hx; destruct Hx).
+  destruct (full_pass_Q cap tabs Hn HI Hc) as (HI' & Hc' & Hcov').
+  assert (Hcv : covers cap (full_pass app szs o so n cap tabs) n) by (apply Hcov'; lia).
+  split; [|exact Hcv]. split; [exact HI'|]. intros _. exists cap. split; assumption.
+Qed.
+
+Lemma dp_loop_terminates t0 S0 : 1 <= n -> vtree n t0 S0 -> nleaves t0 = n -> adm t0 = true ->
+  forall f cap tabs, LI tabs -> (tsc t0 <= cap * 2 ^ Z.of_nat f)%Z ->
+  exists r, dp_loop app szs o so n (S f) cap tabs = Some r.
+Proof.
+  intros Hn Hv Hnl Ha. induction f as [|f IH]; intros cap tabs HLI Hb.
+  - cbn [dp_loop]. destruct (nth n tabs []) eqn:E; [|eexists; reflexivity].
+    destruct (LI_pass cap tabs Hn HLI E) as [_ Hcov].
+    destruct (Hcov t0 S0 Hv Hnl Ha ltac:(cbn in Hb; lia)) as (e & Hin & _).
+    destruct (nth n (full_pass app szs o so n cap tabs) []); [destruct Hin | eexists; reflexivity].
+  - change (dp_loop app szs o so n (S (S f)) cap tabs) with
+      (match nth n tabs [] with
+       | _ :: _ => Some (tabs, cap)
+       | [] => dp_loop app szs o so n (S f) (cap * 2)%Z (full_pass app szs o so n cap tabs)
+       end).
+    destruct (nth n tabs []) eqn:E; [|eexists; reflexivity].
+    destruct (LI_pass cap tabs Hn HLI E) as [HLI' _].
+    apply IH; [exact HLI'|].
+    rewrite Nat2Z.inj_succ, Z.pow_succ_r in Hb by lia. lia.
+Qed.
+
+Theorem dp_terminates t0 S0 f cap : 1 <= n -> vtree n t0 S0 -> nleaves t0 = n -> adm t0 = true ->
+  (tsc t0 <= cap * 2 ^ Z.of_nat f)%Z ->
+  exists tabs cap', dp_loop app szs o so n (S f) cap (dp_init n nodes) = Some (tabs, cap')
+                    /\ nth n tabs [] <> [].
+Proof.
+  intros Hn Hv Hnl Ha Hb.
+  destruct (dp_loop_terminates t0 S0 Hn Hv Hnl Ha f cap _ (LI_init Hn) Hb) as [[tabs cap'] E].
+  exists tabs, cap'. split; [exact E|].
+  apply (dp_loop_LI Hn _ _ _ _ (LI_init Hn) E).
+Qed.
+
+(* every entry of every table reached by the loop is the true record of an admissible tree *)
+Theorem dp_tables_sound fuel cap tabs cap' : 1 <= n ->
+  dp_loop app szs o so n fuel cap (dp_init n nodes) = Some (tabs, cap') ->
+  forall m x, In x (nth m tabs []) -> good m x.
+Proof.
+  intros Hn E. destruct (dp_loop_LI Hn _ _ _ _ (LI_init Hn) E) as [[(_ & Hs & _) _] _]. exact Hs.
+Qed.
+
+(* after one pass with cap C from any reachable state, every level holds a best entry for
+   every admissible tree of score <= C *)
+Theorem dp_level_invariant C tabs m : 1 <= n -> Inv tabs -> nth n tabs [] = [] -> 1 <= m <= n ->
+  Inv (full_pass app szs o so n C tabs) /\ covers C (full_pass app szs o so n C tabs) m /\
+  capped C (full_pass app szs o so n C tabs).
+Proof.
+  intros Hn HI E Hm.
+  assert (Hc : capped C tabs) by (intros x Hx; rewrite E in Hx; destruct Hx).
+  destruct (full_pass_Q C tabs Hn HI Hc) as (HI' & Hc' & Hcov').
+  split; [exact HI'|]. split; [apply Hcov'; lia | exact Hc'].
+Qed.
+
 End PartB.
+
+(* ================================================================== *)
+(* the executable well-formedness check implies the hypotheses used above *)
+
+Lemma legs_eqb_eq (a b : legs) : eqb a b = true -> a = b.
+Proof.
+  unfold eqb, Eqb_list. revert b. induction a as [|[i c] a IH]; intros [|[j d] b]; cbn [list_eqb]; try discriminate.
+  - reflexivity.
+  - intros H. apply andb_true_iff in H. destruct H as [H1 H2].
+    unfold eqb, Eqb_prod in H1. cbn [fst snd] in H1. apply andb_true_iff in H1. destruct H1 as [Hi Hc].
+    apply Nat.eqb_eq in Hi. apply Nat.eqb_eq in Hc. subst. f_equal. apply IH, H2.
+Qed.
+
+Lemma wf_procb_spec nodes app szs : wf_procb nodes app szs = true ->
+  (forall i, i < length nodes -> nth i nodes [] = legs_of nodes app (bit i)) /\
+  (forall j, j < length app -> cnt_all nodes j <= appn app j) /\
+  (forall j, j < length app -> (0 <= szn szs j)%Z).
+Proof.
+  unfold wf_procb. intros H. apply andb_true_iff in H. destruct H as [H H3].
+  apply andb_true_iff in H. destruct H as [H1 H2].
+  rewrite forallb_forall in H1, H2, H3. repeat split.
+  - intros i Hi. apply legs_eqb_eq, H1, in_seq. lia.
+  - intros j Hj. apply Nat.leb_le, H2, in_seq. lia.
+  - intros j Hj. apply Z.leb_le, H3, in_seq. lia.
+Qed.
+
+(* ================================================================== *)
+(* trees over bitmasks are exactly the binary trees with distinct leaves *)
+
+Lemma bit_testbit i k : N.testbit (bit i) k = N.eqb (N.of_nat i) k.
+Proof. unfold bit. rewrite N.shiftl_1_l. apply N.pow2_bits_eqb. Qed.
+
+Lemma mask_spec t : forall k, N.testbit (mask t) k = true <-> In (N.to_nat k) (leaves t).
+Proof.
+  induction t as [i|l IHl r IHr]; intros k; cbn [mask leaves].
+  - rewrite bit_testbit. split.
+    + intros H. apply N.eqb_eq in H. subst k. rewrite Nat2N.id. left; reflexivity.
+    + intros [H|[]]. subst i. rewrite N2Nat.id. apply N.eqb_refl.
+  - rewrite N.lor_spec, orb_true_iff, in_app_iff, IHl, IHr. reflexivity.
+Qed.
+
+Lemma disjoint_masks l r : (forall i, In i (leaves l) -> ~ In i (leaves r)) <-> N.land (mask l) (mask r) = 0%N.
+Proof.
+  split.
+  - intros H. apply N.bits_inj. intros k. rewrite N.land_spec, N.bits_0.
+    destruct (N.testbit (mask l) k) eqn:El; [|reflexivity].
+    destruct (N.testbit (mask r) k) eqn:Er; [|reflexivity].
+    apply mask_spec in El. apply mask_spec in Er. exfalso. exact (H _ El Er).
+  - intros H i Hl Hr.
+    assert (E : N.testbit (N.land (mask l) (mask r)) (N.of_nat i) = true).
+    { rewrite N.land_spec. apply andb_true_iff. split; apply mask_spec; rewrite Nat2N.id; assumption. }
+    rewrite H, N.bits_0 in E. discriminate.
+Qed.
+
+Lemma NoDup_app_iff {A} (a b : list A) :
+  NoDup (a ++ b) <-> NoDup a /\ NoDup b /\ (forall x, In x a -> ~ In x b).
+Proof.
+  induction a as [|x a IH]; cbn [app].
+  - split; [intros H; repeat split; [constructor | exact H | intros ? []] | tauto].
+  - split.
+    + intros H. inversion H as [|? ? Hx Hnd]; subst. apply IH in Hnd. destruct Hnd as (Ha & Hb & Hd).
+      split; [constructor; [intros Hin; apply Hx, in_app_iff; auto | exact Ha]|].
+      split; [exact Hb|]. intros y [<-|Hy]; [intros Hin; apply Hx, in_app_iff; auto | apply Hd, Hy].
+    + intros (Ha & Hb & Hd). inversion Ha as [|? ? Hx Hnd]; subst. constructor.
+      * rewrite in_app_iff. intros [H|H]; [exact (Hx H) | exact (Hd x (or_introl eq_refl) H)].
+      * apply IH. split; [exact Hnd|]. split; [exact Hb|]. intros y Hy. apply Hd. right; exact Hy.
+Qed.
+
+Lemma vtree_iff n t S :
+  vtree n t S <-> NoDup (leaves t) /\ (forall i, In i (leaves t) -> i < n) /\ S = mask t.
+Proof.
+  split.
+  - induction 1 as [i Hi|l r Sl Sr Hl IHl Hr IHr Hd]; cbn [leaves mask].
+    + split; [constructor; [intros []|constructor]|]. split; [intros j [<-|[]]; exact Hi | reflexivity].
+    + destruct IHl as (N1 & B1 & ->), IHr as (N2 & B2 & ->).
+      split; [apply NoDup_app_iff; split; [exact N1|split; [exact N2|apply disjoint_masks, Hd]]|].
+      split; [intros i Hin; apply in_app_iff in Hin; destruct Hin; auto | reflexivity].
+  - revert S. induction t as [i|l IHl r IHr]; intros S (Hnd & Hb & ->); cbn [leaves mask] in *.
+    + constructor. apply Hb. left; reflexivity.
+    + apply NoDup_app_iff in Hnd. destruct Hnd as (N1 & N2 & Hd).
+      constructor.
+      * apply IHl. split; [exact N1|]. split; [intros i Hi; apply Hb, in_app_iff; auto | reflexivity].
+      * apply IHr. split; [exact N2|]. split; [intros i Hi; apply Hb, in_app_iff; auto | reflexivity].
+      * apply disjoint_masks, Hd.
+Qed.
+
+Lemma nleaves_length t : nleaves t = length (leaves t).
+Proof. induction t; cbn [nleaves leaves]; [reflexivity|]. rewrite app_length. congruence. Qed.
+
+(* a tree that uses every tensor 0..n-1 exactly once *)
+Definition full_tree (n : nat) (t : tree) : Prop :=
+  NoDup (leaves t) /\ forall i, In i (leaves t) <-> i < n.
+
+Lemma full_tree_vtree n t : full_tree n t -> vtree n t (mask t) /\ nleaves t = n.
+Proof.
+  intros [Hnd Hin]. split.
+  - apply vtree_iff. split; [exact Hnd|]. split; [intros i Hi; apply Hin, Hi | reflexivity].
+  - rewrite nleaves_length.
+    assert (P : Permutation (leaves t) (seq 0 n)).
+    { apply NoDup_Permutation; [exact Hnd | apply seq_NoDup|].
+      intros i. rewrite Hin, in_seq. lia. }
+    rewrite (Permutation_length P). apply seq_length.
+Qed.
+
+Lemma vtree_full n t S : vtree n t S -> nleaves t = n -> full_tree n t.
+Proof.
+  intros Hv Hn. apply vtree_iff in Hv. destruct Hv as (Hnd & Hb & _). split; [exact Hnd|].
+  intros i. split; [apply Hb|]. intros Hi.
+  assert (Hincl : incl (seq 0 n) (leaves t)).
+  { apply NoDup_length_incl; [exact Hnd | rewrite seq_length, <- nleaves_length; lia|].
+    intros j Hj. apply in_seq. specialize (Hb j Hj). lia. }
+  apply Hincl, in_seq. lia.
+Qed.
